@@ -307,13 +307,21 @@ def enc_row(r):
     return sum((v + 1) * BASE ** i for i, v in enumerate(r))
 
 
-def lean_enc_rows(name, rows, chunk=200):
-    """`def <name> : List Nat` as the concatenation of chunks (a literal of thousands of elements exceeds Lean's
-    elaborator recursion depth)"""
+def lean_enc_rows(name, rows, cut, chunk=200):
+    """`def <name>A`, `def <name>B` (rows before / from `cut`) and `def <name> := <name>A ++ <name>B`, each half the
+    concatenation of chunks (a literal of thousands of elements exceeds Lean's elaborator recursion depth; two halves so
+    that two modules can check them in parallel)"""
     parts = []
-    for ci in range(0, max(len(rows), 1), chunk):
-        parts.append(f'def {name}{ci // chunk} : List Nat := [\n  ' + ',\n  '.join(str(enc_row(r)) for r in rows[ci:ci + chunk]) + ']\n')
-    return '\n'.join(parts) + f'\ndef {name} : List Nat := List.flatten [' + ', '.join(f'{name}{i}' for i in range(len(parts))) + ']\n'
+    halves = {'A': [], 'B': []}
+    for half, rs in (('A', rows[:cut]), ('B', rows[cut:])):
+        for ci in range(0, max(len(rs), 1), chunk):
+            nm = f'{name}{half}{ci // chunk}'
+            halves[half].append(nm)
+            parts.append(f'def {nm} : List Nat := [\n  ' + ',\n  '.join(str(enc_row(r)) for r in rs[ci:ci + chunk]) + ']\n')
+    txt = '\n'.join(parts)
+    for half in 'AB':
+        txt += f'\ndef {name}{half} : List Nat := List.flatten [' + ', '.join(halves[half]) + ']\n'
+    return txt + f'\ndef {name} : List Nat := {name}A ++ {name}B\n'
 
 
 def render():
@@ -327,6 +335,13 @@ def render():
             pairs.append((s_, t_))
     shapes = [p[0] for p in pairs]
     tables = [p[1] for p in pairs]
+    total = sum(len(r) ** 2 for r in shapes)            # checking cost grows about quadratically with the row length
+    acc, cut = 0, len(shapes)
+    for i, r in enumerate(shapes):
+        acc += len(r) ** 2
+        if acc * 2 >= total:
+            cut = i + 1
+            break
     so = ('-- GENERATED on every run by harness/c14_extract.py from /repo/src/fst/astutil.py (syntax_ordered_children); do not edit\n'
           'import Pfst.TableCheck\n'
           'namespace Pfst.Gen.SyntaxOrder\n\n'
@@ -338,13 +353,13 @@ def render():
           '/-- one row per synthetic parent: [class, nfields, count_1..count_nfields, order...]; the AST children are labelled\n'
           '1..k field by field (list elements in index order, None entries skipped); `order` = labels in the order returned by\n'
           '`syntax_ordered_children`.  Each row is packed into one numeral (`Pfst.TableCheck.decodeRow`). -/\n'
-          + lean_enc_rows('shapesEnc', shapes) + '\n'
+          + lean_enc_rows('shapesEnc', shapes, cut) + '\n'
           'def shapes : List (List Nat) := shapesEnc.map Pfst.TableCheck.decodeRow\n\nend Pfst.Gen.SyntaxOrder\n')
     np_ = ('-- GENERATED on every run by harness/c14_extract.py from /repo/src/fst/traverse_next.py, traverse_prev.py; do not edit\n'
            'import Pfst.TableCheck\n'
            'namespace Pfst.Gen.NextPrev\n\n'
            '/-- aligned with `Pfst.Gen.SyntaxOrder.shapes`: [class, k, next_0..next_k, prev_0..prev_k] where index 0 is START\n'
            '(field None), index i the child labelled i, value 0 = None.  Each row packed into one numeral. -/\n'
-           + lean_enc_rows('tablesEnc', tables) + '\n'
+           + lean_enc_rows('tablesEnc', tables, cut) + '\n'
            'def tables : List (List Nat) := tablesEnc.map Pfst.TableCheck.decodeRow\n\nend Pfst.Gen.NextPrev\n')
     return so, np_, problems, {'classes': len(names), 'static_classes': len(field_order), 'shapes': len(shapes)}
